@@ -11,7 +11,7 @@
 From Coq Require Import List NArith ZArith Bool.
 From K.Gen Require Import C10_consts.
 From K.Model Require Import C10.
-From K.Proof Require C10_base C10_pass C10_policy C10.
+From K.Proof Require C10_base C10_pass C10_policy C10_press C10 C10_more.
 Import ListNotations.
 Local Open Scope Z_scope.
 
@@ -108,6 +108,49 @@ Theorem C10_cleanup_exact_under_pressure_refuted :
 Proof. exact Proof.C10.exact_under_pressure_refuted. Qed.
 Print Assumptions C10_cleanup_exact_under_pressure_refuted.
 
+(* ... but one direction survives any pressure: whatever the capacity, every listed, unprotected
+   file that is expired or idle (as the scan sees it) is gone after a normal pass *)
+Theorem C10_cleanup_due_removed : forall c0 t0 ops c pol u scan order m f,
+  let s := fst (run (init c0 t0) ops) in
+  should_aggro c u = false -> In m scan -> aget m (dk s) = Some f ->
+  is_persisted f = false ->
+  ready (c_tti c) (c_ttl c) (now s) (seen (amem m (fm s)) (now s) f) = true ->
+  aget m (dk (fst (cleanup c pol u scan order s))) = None.
+Proof. exact Proof.C10.cleanup_due_removed_stmt. Qed.
+Print Assumptions C10_cleanup_due_removed.
+
+(* the aggressive variants of the pass (aggressive TTL, lower disk-usage threshold, injected or
+   missing usage) remove a subset: whatever disappears was listed, unprotected, and expired by
+   the TTL in force or idle by tti *)
+Theorem C10_cleanup_removes_only_due : forall c0 t0 ops c u scan order m f,
+  let s := fst (run (init c0 t0) ops) in
+  roomy (cap s) (dk s) = true -> NoDup scan ->
+  aget m (dk s) = Some f ->
+  aget m (dk (fst (cleanup c false u scan order s))) = None ->
+  let ttl := if should_aggro c u then c_attl c else c_ttl c in
+  memb m scan = true /\ is_persisted f = false
+  /\ ready (c_tti c) ttl (now s) (seen (amem m (fm s)) (now s) f) = true.
+Proof. exact Proof.C10_more.cleanup_removes_only_due. Qed.
+Print Assumptions C10_cleanup_removes_only_due.
+
+(* the periodic job itself (addJob + ticker): one period after it was added it runs the pass with
+   the defaulted configuration (idle limit 6 h when none is configured); a disabled job, or a job
+   stopped before its first period, removes nothing *)
+Theorem C10_periodic_job_exact : forall c0 t0 ops c dt u scan order m,
+  let s := fst (run (init c0 t0) ops) in
+  let d := apply_defaults c in
+  let s1 := mkst (dk s) (fm s) (now s + dt) (cap s) in
+  roomy (cap s) (dk s) = true -> NoDup scan -> c_interval d <= dt -> should_aggro d u = false ->
+  aget m (dk (fst (step s (Job c false dt u scan order)))) = ttl_after (c_tti d) (c_ttl d) scan s1 m.
+Proof. exact Proof.C10_more.job_exact. Qed.
+Print Assumptions C10_periodic_job_exact.
+
+Theorem C10_periodic_job_not_started : forall s c dis dt u scan order,
+  dis = true \/ dt < c_interval (apply_defaults c) ->
+  dk (fst (step s (Job c dis dt u scan order))) = dk s.
+Proof. exact Proof.C10_more.job_not_started. Qed.
+Print Assumptions C10_periodic_job_not_started.
+
 (* the defaults the periodic job applies (cleanup.go:48): idle limit 6 h, interval 30 min,
    aggressive TTL 1 h — always positive *)
 Theorem C10_defaults : forall c,
@@ -188,6 +231,19 @@ Example C10_nonvacuous_exact :
   (roomy (cap s) (dk s), should_aggro c None, now s mod NS <=? c_tti c,
    map (fun m => amem m (dk s')) [0; 1; 2; 3]%N)
   = (true, false, true, [false; true; true; false]).
+Proof. vm_compute. reflexivity. Qed.
+
+(* the periodic job with an empty configuration: 6 h idle limit, 30 min period; the protected
+   idle file stays, the unprotected one goes; one ns before the period nothing happens *)
+Example C10_nonvacuous_job :
+  let ops := [Create 0 10 1000; Create 1 10 1000; SetPersist 1 true; Tick 19800000000000] in
+  let s := fst (run (init 0 1000) ops) in
+  let c := mkcfg 0 0 0 0 0 0 in
+  let early := fst (step s (Job c false 1799999999999 None [0; 1]%N [])) in
+  let fired := fst (step s (Job c false 1800000000000 None [0; 1]%N [])) in
+  (roomy (cap s) (dk s), should_aggro (apply_defaults c) None,
+   map (fun m => amem m (dk early)) [0; 1]%N, map (fun m => amem m (dk fired)) [0; 1]%N)
+  = (true, false, [true; true], [false; true]).
 Proof. vm_compute. reflexivity. Qed.
 
 (* a policy pass: four candidates, budget 20 bytes: the surely-in-agent file goes first, then the
